@@ -89,10 +89,10 @@ def handle (cmd : String) (args : List Sx) : String :=
           let find := oracleOf pevs
           let evs := pevs.map (·.1)
           let per := evs.filter Event.isMatched |>.map fun ev => (eventMatches sc find ev).length
-          -- hypothesis of theorem matched_has_submatch: the matcher answers from the start of the range
+          -- hypothesis of theorem matched_has_submatch: the matcher answers on the shown haystack from the start position
           let guard := evs.filter Event.isMatched |>.map fun ev =>
             match ev with
-            | .matched buf rs re _ _ => if (find (cutHaystack sc buf re) rs).isSome then 1 else 0
+            | .matched buf rs re _ _ => if (find (shownHay sc buf rs re) (shownFrom sc rs)).isSome then 1 else 0
             | _ => 0
           s!"matched={matchedCount evs} submatches={subMatchTotal sc find evs} guard={natsToStr guard}; per={natsToStr per}"
   | "c10.normalize", [mode, inv, only, quiet, stats] =>
